@@ -162,14 +162,14 @@ def pyIn (term : Str) : Node → Except Err Bool
   | .scalar _ _ => .error (.crash .typeError)
 
 /-- Python `a <= b` on `str` (code point order). -/
-def strLe : Str → Str → Bool
+def ev_strLe : Str → Str → Bool
   | [], _ => true
   | _ :: _, [] => false
-  | a :: as, b :: bs => if a.toNat < b.toNat then true else if b.toNat < a.toNat then false else strLe as bs
+  | a :: as, b :: bs => if a.toNat < b.toNat then true else if b.toNat < a.toNat then false else ev_strLe as bs
 
 /-- Python `lo <= key <= hi` with `lo`, `hi` of type `str`: `TypeError` for an `int` key. -/
 def pyKeyBetween (lo hi : Str) : Key → Except Err Bool
-  | .str s => .ok (strLe lo s && strLe s hi)
+  | .str s => .ok (ev_strLe lo s && ev_strLe s hi)
   | .int _ => .error (.crash .typeError)
 
 /-- `range(*slice(lo, hi).indices(len))` — the positions Python's `data[lo:hi]` selects. -/
@@ -182,13 +182,13 @@ def sliceIndices (len : Nat) (lo hi : Int) : List Nat :=
   (List.range (b - a)).map (· + a)
 
 /-- `Nodes.node_is_aoh(data, accept_nulls=True)` on the elements of a list. -/
-def isAoh (items : List Node) : Bool :=
+def ev_isAoh (items : List Node) : Bool :=
   items.all (fun n => match n with
     | .map .. => true
     | .scalar _ .null => true
     | _ => false)
 
-def Node.isNull : Node → Bool
+def Node.evIsNull : Node → Bool
   | .scalar _ .null => true
   | _ => false
 
@@ -243,7 +243,7 @@ def ESeg.creates : ESeg → Bool
   | _ => true
 
 def Res.isNullNode : Res → Bool
-  | .real (n, _) => n.isNull
+  | .real (n, _) => n.evIsNull
   | .virt _ => false
 
 /-- The matcher `Searches.search_matches(method, term, haystack)`; the haystack is a document node
@@ -420,7 +420,7 @@ def descFirst (mt : Matcher) (m : Method) (term : Str) (g : Gen Res) : Except Er
 def searchElem (mt : Matcher) (dsc : Desc) (m : Method) (attr term : Str) (aoh : Bool) (x : NC) :
     Except Err Bool :=
   if attr = ['.'] then
-    if aoh && !x.1.isNull then
+    if aoh && !x.1.evIsNull then
       match pyIn term x.1 with
       | .ok true => .ok true
       | .ok false => mt m x.1 term
@@ -473,7 +473,7 @@ def searchMap (mt : Matcher) (dsc : Desc) (inv : Bool) (m : Method) (attr term :
 def searchStep (mt : Matcher) (dsc : Desc) (inv : Bool) (m : Method) (attr term : Str) (tl : Bool) :
     Node → Ctx → Gen NC
   | .seq _ items, c =>
-    if tl then searchList mt dsc inv m attr term (isAoh items) (seqKidsFrom c items 0) else Gen.nil
+    if tl then searchList mt dsc inv m attr term (ev_isAoh items) (seqKidsFrom c items 0) else Gen.nil
   | .map a es, c => searchMap mt dsc inv m attr term a es c
   | .set _ ms, c => searchNames mt inv m term (ms.map (fun k => (k, (k.toNode, c.child (.member k) (.member k) (escSection k.text)))))
   | .scalar a v, c => yieldIf inv (mt m (.scalar a v) term) (.scalar a v, c)
@@ -560,20 +560,20 @@ def optional : List ESeg → Res → Gen Res
 
 /-- `Processor.get_nodes(path, mustexist=True)` on a document. -/
 def getRequired (segs : List ESeg) (d : Node) : Gen Res :=
-  if d.isNull then Gen.nil else
+  if d.evIsNull then Gen.nil else
   let g := required mt dsc segs (.real (d, Ctx.root))
   Gen.append g (if g.1.isEmpty then Gen.fail (.ypath .unmatched) else Gen.nil)
 
 /-- `Processor.exists(path)` -/
 def existsQ (segs : List ESeg) (d : Node) : Except Err Bool :=
-  if d.isNull then .ok false else
+  if d.evIsNull then .ok false else
   match (required mt dsc segs (.real (d, Ctx.root))).collapse with
   | .ok l => .ok (!l.isEmpty)
   | .error e => .error e
 
 /-- `Processor.get_nodes(path, mustexist=False)` on a document (read behaviour). -/
 def getOptional (segs : List ESeg) (d : Node) : Gen Res :=
-  if d.isNull then Gen.nil else optional mt dsc segs (.real (d, Ctx.root))
+  if d.evIsNull then Gen.nil else optional mt dsc segs (.real (d, Ctx.root))
 
 end Eval
 
